@@ -172,7 +172,8 @@ pub fn raw_name_to_ts_field(value: String) -> String {
         .next()
         .map_or(true, |first| !first.is_numeric());
 
-    let valid = valid_chars && does_not_start_with_digit;
+    // (the empty string is a possible property name, but not an identifier)
+    let valid = !value.is_empty() && valid_chars && does_not_start_with_digit;
 
     if valid {
         value
